@@ -281,7 +281,7 @@ def _size_source(src, fixed_bits):
     if src == "fixed":
         return None, fixed_bits
     if src == "lookup":
-        return "<xtce:DiscreteLookupList>" + DL(16, CMP("LENF", "1")) + DL(fixed_bits, CMP("LENF", "8", "&gt;=")) + DL(40, CMPLIST(CMP("LENF", "2", ">="), CMP("LENF", "5", "!="))) + DL(8, CMP("LENF", "2", "&lt;")) + "</xtce:DiscreteLookupList>", None
+        return "<xtce:DiscreteLookupList>" + DL(16, CMP("LENF", "1")) + DL(0, CMP("LENF", "3")) + DL(fixed_bits, CMP("LENF", "8", "&gt;=")) + DL(40, CMPLIST(CMP("LENF", "2", ">="), CMP("LENF", "5", "!="))) + DL(8, CMP("LENF", "2", "&lt;")) + "</xtce:DiscreteLookupList>", None
     if src == "ref-raw-adj":
         return DYN("LENF", "false", 8, -8), None
     if src == "ref-cal":
@@ -324,7 +324,7 @@ def binary_template(src, off):
     elif src == "fixed-odd":
         size = "<xtce:FixedValue>13</xtce:FixedValue>"
     elif src == "lookup":
-        size = "<xtce:DiscreteLookupList>" + DL(16, CMP("LENF", "1")) + DL(13, CMP("LENF", "8", "&gt;=")) + DL(40, CMPLIST(CMP("LENF", "2", ">="), CMP("LENF", "5", "!="))) + DL(8, CMP("LENF", "2", "&lt;")) + "</xtce:DiscreteLookupList>"
+        size = "<xtce:DiscreteLookupList>" + DL(16, CMP("LENF", "1")) + DL(0, CMP("LENF", "3")) + DL(13, CMP("LENF", "8", "&gt;=")) + DL(40, CMPLIST(CMP("LENF", "2", ">="), CMP("LENF", "5", "!="))) + DL(8, CMP("LENF", "2", "&lt;")) + "</xtce:DiscreteLookupList>"
     elif src == "ref-raw-adj":
         size = DYN("LENF", "false", 3, 1)
     elif src == "ref-raw-of-cal":
